@@ -73,4 +73,11 @@ def run(tier: str, rep: Report):
         kind = evid.split(":")[0]
         return f"{PID}/{'+'.join(sorted(set(c.split('.', 1)[1] for c in clauses)))}/{kind}/ver{df.ver_of(evid) if kind != 'n' else evid.split(':')[2]}"
 
+    def corrupt(e):
+        if e["lib"].get("exc") or not e["lib"].get("iter"):
+            return None
+        e["lib"]["iter"] = e["lib"]["iter"][1:]
+        return e
+
+    df.negative_control(rep, files, "Trace_Decode", corrupt, ("P14.iter",))
     df.classify(rep, fails, ("P14.",), PID, keyfn)
